@@ -742,6 +742,23 @@ def run(tier, seed):
                                "holds-exactly-the-pitches-a-set-model-predicts",
                                "%s %s down -> %r" % (r, sh, obs), (r, sh, "down"))
 
+    # 4b'. a start note that is NOT in octave 4 (a name with octave, a Note object): the interval is stacked on that note
+    for r in roots[::3]:
+        for o in (2, 3, 5, 6):
+            for sh, semis in (("3", 4), ("5", 7), ("b7", 10), ("2", 2)):
+                for start in ("text", "note"):
+                    R.case("from_interval_shorthand", (r, o, sh, start))
+                    arg = "%s-%d" % (r, o) if start == "text" else Note(r, o)
+                    ok, nc = R.guard("NoteContainer.from_interval_shorthand", "holds-exactly-the-pitches-a-set-model-predicts",
+                                     (r, o, sh, start), lambda: NoteContainer().from_interval_shorthand(arg, sh))
+                    if not ok:
+                        continue
+                    ps = [pitch(n, oo) for n, oo in observed(nc)]
+                    if ps != [pitch(r, o), pitch(r, o) + semis]:
+                        R.fail("NoteContainer.from_interval_shorthand", "holds-exactly-the-pitches-a-set-model-predicts",
+                               "%s-%d %s up -> %r, expected pitches %r" % (r, o, sh, observed(nc), [pitch(r, o), pitch(r, o) + semis]),
+                               (r, o, sh, start))
+
     # 4c. progressions: numeral x accidental prefix x suffix x 30 keys
     suffixes = ["", "7", "m", "M7", "dim7", "dom7", "m7b5", "sus4", "13"] if quick \
         else [""] + sorted(s for s in chords.chord_shorthand if s)
